@@ -226,7 +226,8 @@ func mutate(r *rand.Rand, id int, seedName string, base []step, all map[string][
 			c.Steps[i].Method = pick(r, []string{"FOO", "play", "", "SETUP", "PLAY", "RECORD", "PAUSE", "ANNOUNCE", "TEARDOWN", "REDIRECT", strings.Repeat("M", 65), "GET", "POST", "DESCRIBE"})
 			c.Muts = append(c.Muts, "method")
 		case 7: // URL games
-			c.Steps[i].URL = pick(r, []string{"*", "", "rtsp://", "{base}", "{base}/", "{base}//", "{base}/stream/", "{base}/stream/trackID=", "{base}/stream/trackID=99", "{base}/stream/trackID=-1",
+			c.Steps[i].URL = pick(r, []string{"*", "", "rtsp://", "{base}", "{base}/", "{base}//", "{base}/stream/", "{base}/stream/trackID=", "{base}/stream/trackID=99", "{base}/stream/trackID=-1", "{base}/stream/trackID=2", "{base}/stream/trackID=3", "{base}/stream/trackID=1", "{base}/stream/trackID=02",
+				"{base}/stream/trackID=4294967296", "{base}/pub/trackID=2",
 				"{base}/stream/trackID=0/trackID=1", "{base}/%zz", "{base}/stream?a=b/", "{base}/stream?trackID=1", "http://x/", "rtsp://other:1/stream", "{base}/" + strings.Repeat("u", 2100), "{base}/nothere", "{base}/pub/trackID=7", "/stream", "rtsp://[::1/stream"})
 			c.Muts = append(c.Muts, "url")
 		case 8: // protocol token
@@ -334,6 +335,60 @@ func mutate(r *rand.Rand, id int, seedName string, base []step, all map[string][
 		}
 	}
 	return c
+}
+
+// boundaryConversations is a small deterministic family run in every configuration: every SETUP
+// of every seed with boundary track identifiers (the number of medias, one beyond, huge, empty,
+// non-numeric) and boundary interleaved channel pairs.
+func boundaryConversations(all map[string][]step) []conversation {
+	var out []conversation
+	names := make([]string, 0, len(all))
+	for k := range all {
+		names = append(names, k)
+	}
+	sortStrings(names)
+	for _, name := range names {
+		base := all[name]
+		for i, s := range base {
+			if s.Kind != "req" || s.Method != "SETUP" {
+				continue
+			}
+			cut := strings.LastIndex(s.URL, "/trackID=")
+			if cut < 0 {
+				continue
+			}
+			for _, tid := range []string{"2", "3", "1", "0", "", "x", "-1", "2147483647", "2147483648", "18446744073709551616", "02", "2/"} {
+				c := conversation{Seed: name, Muts: []string{"boundary-track:" + tid}, TruncateAt: -1}
+				for j, st := range base {
+					st.Header = append([][2]string(nil), st.Header...)
+					if j == i {
+						st.URL = s.URL[:cut] + "/trackID=" + tid
+					}
+					c.Steps = append(c.Steps, st)
+				}
+				out = append(out, c)
+			}
+			for _, il := range []string{"254-255", "255-256", "0-0", "1-0", "2-3"} {
+				c := conversation{Seed: name, Muts: []string{"boundary-interleaved:" + il}, TruncateAt: -1}
+				for j, st := range base {
+					st.Header = append([][2]string(nil), st.Header...)
+					if j == i {
+						for k := range st.Header {
+							if st.Header[k][0] == "Transport" && strings.Contains(st.Header[k][1], "interleaved=") {
+								st.Header[k][1] = "RTP/AVP/TCP;unicast;interleaved=" + il
+								if strings.Contains(s.Header[k][1], "mode=record") {
+									st.Header[k][1] += ";mode=record"
+								}
+							}
+						}
+					}
+					c.Steps = append(c.Steps, st)
+				}
+				out = append(out, c)
+			}
+		}
+	}
+	return out
 }
 
 func mutTransport(r *rand.Rand, t string) string {
